@@ -581,7 +581,7 @@ fn flush_tally(run: &vpc::Run) -> std::collections::BTreeMap<String, u64> {
     for (class, (n, _, what, w)) in g {
         run.violation(&class, &what, w);
         for _ in 1..n {
-            run.violation(&class, "", vpc::Value::Null);
+            run.violation(&class, &what, vpc::Value::Null);
         }
         counts.insert(class, n);
     }
